@@ -55,7 +55,8 @@ def register(S):
     S.contract(A + "__init__", params={"self": "obj:AsyncResult", "conn": "obj:Connection"},
                ensures={"pending_without_deadline": (
                    "self._conn is conn and not self._is_ready and isnil(self._callbacks.items) and not self._ttl.finite", P15)},
-               raises={}, modifies=["self._conn", "self._is_ready", "self._is_exc", "self._obj", "self._callbacks", "self._ttl"])
+               raises={}, sets={"self._conn": "conn"},
+               modifies=["self._conn", "self._is_ready", "self._is_exc", "self._obj", "self._callbacks", "self._ttl"])
     S.contract(A + "expired", params={"self": "obj:AsyncResult"}, inline=True, note="property: not ready and ttl.expired()")
     CALLED_ALL = "n_ev('Loop') == 1 and loop_ghost(0, 'called') == old(self._callbacks.items)"
     S.contract(A + "__call__", params={"self": "obj:AsyncResult", "is_exc": "val", "obj": "val"},
